@@ -26,22 +26,22 @@ def known_rules(prop):
 SAFE = [("base", 150, 3000), ("pop", 60, 1500), ("queue", 60, 1500), ("stop", 60, 1500), ("stoppop", 80, 1500), ("manual", 40, 800), ("none", 30, 500), ("narrow", 60, 1000), ("overtall", 30, 500), ("uwg", 30, 500)]
 FIND = [("nq", 60, 1200), ("latequeue", 40, 800), ("fault", 60, 1200), ("latefault", 40, 800)]
 
-FINDING_FAMILIES = {"fault", "latefault", "nq", "latequeue", "narrow"}
+FINDING_FAMILIES = {"fault", "latefault", "nq", "latequeue", "narrow", "latewindow"}
 
 SCHED_PLANS = {
     "C01": SAFE + FIND + [("delay", 40, 800)],
     "C02": SAFE + FIND,
     "C03": [("base", 200, 4000), ("uwg", 60, 1000), ("manual", 80, 1500), ("tall", 30, 400), ("tail", 150, 3000), ("pop", 80, 1500), ("queue", 60, 1500), ("nq", 40, 800)],
     "C05": [("many", 3, 30), ("delay", 40, 800), ("fault", 100, 2000), ("base", 200, 4000), ("pop", 80, 1500), ("queue", 80, 1500), ("stop", 40, 1000), ("nq", 60, 1200)],
-    "C06": [("prio", 150, 3000), ("base", 250, 5000), ("pop", 100, 2000), ("queue", 80, 1500), ("stop", 40, 800), ("manualqueue", 40, 800), ("latequeue", 30, 600), ("heap", 60, 1200)],
+    "C06": [("prio", 150, 3000), ("base", 250, 5000), ("pop", 100, 2000), ("queue", 80, 1500), ("stop", 40, 800), ("manualqueue", 40, 800), ("latequeue", 30, 600), ("heap", 60, 1200), ("latewindow", 30, 600)],
     "C11": SAFE + [("fault", 80, 1500)],
     "C12": [("narrow", 80, 1500), ("base", 250, 5000), ("pop", 60, 1000), ("queue", 60, 1000), ("stop", 40, 800), ("nq", 40, 800)],
     "C13": [("base", 250, 5000), ("tail", 150, 3000), ("pop", 60, 1000), ("stop", 60, 1500), ("manual", 40, 800)],
     "C14": [("stop", 250, 5000), ("stoppop", 80, 1500), ("stop@free", 150, 3000), ("base@free", 50, 1000), ("manual", 60, 1000), ("none", 60, 1000), ("base", 60, 1000)],
     "C15": [("fault", 250, 5000), ("latefault", 80, 1500), ("base", 40, 500)],
     "C16": SAFE + FIND,
-    "C17": [("queue", 250, 5000), ("overtall", 60, 1000), ("manualqueue", 100, 2000), ("latequeue", 80, 1500), ("pop", 40, 800), ("popqueue", 60, 1000)],
-    "C18": [("pop", 300, 6000), ("tall", 40, 600), ("base", 60, 1000), ("heap", 40, 800), ("popqueue", 80, 1500)],
+    "C17": [("queue", 250, 5000), ("overtall", 60, 1000), ("manualqueue", 100, 2000), ("latequeue", 80, 1500), ("pop", 40, 800), ("popqueue", 60, 1000), ("latewindow", 60, 1000)],
+    "C18": [("pop", 300, 6000), ("tall", 40, 600), ("base", 60, 1000), ("heap", 40, 800), ("popqueue", 80, 1500), ("latewindow", 60, 1000)],
 }
 
 
@@ -474,7 +474,7 @@ def term_part(prop, tier, seed):
         states = sum(r["states"] for r in d)
         trans = sum(r["transitions"] for r in d)
         binary = core.build_harness(wd)
-        fams = [("pop", 150, 3000), ("base", 80, 1500), ("queue", 40, 800), ("popqueue", 80, 1500)] if prop == "C18" else [("base", 100, 2000), ("pop", 100, 2000), ("queue", 40, 800), ("popqueue", 50, 1000)]
+        fams = [("pop", 150, 3000), ("base", 80, 1500), ("queue", 40, 800), ("popqueue", 80, 1500), ("latewindow", 40, 800)] if prop == "C18" else [("base", 100, 2000), ("pop", 100, 2000), ("queue", 40, 800), ("popqueue", 50, 1000)]
         scs = gen.batch(seed + 7, [(f, q if tier == "quick" else t) for f, q, t in fams])
         for sc_ in scs:
             for prog_ in sc_["clients"]:
